@@ -322,6 +322,45 @@ def run_shard(spec, res):
                     if r2 is not r1:
                         equiv(name, d, r2, R, extra={"second_call": True})
                     equiv(name, d, r3, R, extra={"applied_twice": True})
+            elif kind in ("ite_cases", "ite_dict") and it % 5 == 4:
+                # floating-point arms: the two zeros, NaN, infinities and variables (IEEE-equal is not the same value)
+                from vf.gen import fpbuild
+                from vf.ref import fpref
+
+                S = rng.choice(["D", "F"])
+                nb = fpref.nbits(S)
+                specials = [0, 1 << (nb - 1), ((1 << (nb - 1)) - 1) & ~((1 << (nb - 1 - (11 if S == "D" else 8))) - 1), 1, rng.getrandbits(nb)]
+                specials.append((0x7FF8 << 48) if S == "D" else (0x7FC0 << 16))
+
+                def fval():
+                    return ["fps", "x" + S, S] if rng.random() < 0.2 else ["fpv", rng.choice(specials), S]
+
+                g = G.Gen(rng, nvars=2, widths=[4], surface=False, allow_div=False)
+                n = rng.choice([1, 2, 3, 5])
+                default_d = fval()
+                if kind == "ite_cases":
+                    conds_d = [g.boolx(rng.choice([0, 1])) for _ in range(n)]
+                    vals_d = [fval() for _ in range(n)]
+                    try:
+                        r = claripy.ite_cases([(bvb.build(c), fpbuild.build(v)) for c, v in zip(conds_d, vals_d)], fpbuild.build(default_d))
+                    except claripy.errors.ClaripyError:
+                        continue
+                else:
+                    idx_d = ["bvs", "i4", 4]
+                    keys = rng.sample(range(16), rng.choice([1, 2, 3, 5, 8]))
+                    conds_d = [["eq", idx_d, ["bvv", kk, 4]] for kk in keys]
+                    vals_d = [fval() for _ in keys]
+                    try:
+                        r = claripy.ite_dict(bvb.build(idx_d), {kk: fpbuild.build(v) for kk, v in zip(keys, vals_d)}, fpbuild.build(default_d))
+                    except claripy.errors.ClaripyError:
+                        continue
+                keep.append(r)
+                spec_d = default_d
+                for c, v in reversed(list(zip(conds_d, vals_d))):
+                    spec_d = ["ite", c, v, spec_d]
+                res.case([kind + "-fp", conds_d, vals_d, default_d], True)
+                res.count("fp_valued_switches")
+                equiv(kind, [conds_d, vals_d, default_d], r, fpref.term(spec_d), extra={"values": "fp"})
             elif kind == "ite_cases":
                 w = rng.choice([1, 3, 8, 32])
                 g = G.Gen(rng, nvars=2, widths=[w], surface=False, allow_div=False)
